@@ -88,8 +88,9 @@ pub fn gen_history(rng: &mut Rng, cfg: &GenCfg) -> Vec<Op> {
                 l.ts,
                 if rng.chance(1, 2) { Some(l.data.len()) } else { None },
             ),
-            Some(l) => (*rng.pick(&TYPES), if rng.coin() { l.msid } else { *rng.pick(&[0u32, 1, 1, 5, 0xFFFF_FFFF]) }, l.ts, None),
-            None => (*rng.pick(&TYPES), *rng.pick(&[0u32, 1, 1, 5, 0xFFFF_FFFF]), rng.u32_boundary(), None),
+            // message stream ids include the values the serializer uses as chunk stream ids
+            Some(l) => (*rng.pick(&TYPES), if rng.coin() { l.msid } else { *rng.pick(&[0u32, 1, 1, 5, 2, 3, 4, 6, 0xFFFF_FFFF]) }, l.ts, None),
+            None => (*rng.pick(&TYPES), *rng.pick(&[0u32, 1, 1, 5, 2, 3, 4, 6, 0xFFFF_FFFF]), rng.u32_boundary(), None),
         };
         let mut type_id = if rng.chance(1, 30) { rng.u8() } else { type_id };
         if type_id == 1 && !cfg.allow_user_type1 {
@@ -98,9 +99,11 @@ pub fn gen_history(rng: &mut Rng, cfg: &GenCfg) -> Vec<Op> {
         if cfg.allow_user_type1 && rng.chance(1, 40) {
             type_id = 1;
         }
-        let step: u32 = match rng.below(14) {
+        let step: u32 = match rng.below(16) {
             0 => 0,
             1 | 2 => last_step,
+            14 => base_ts,                    // new timestamp = 2 x previous (delta equals the previous absolute value)
+            15 => base_ts.wrapping_add(last_step), // delta = previous absolute + previous delta
             3 => 1,
             4 => 33,
             5 => 40,
@@ -124,7 +127,7 @@ pub fn gen_history(rng: &mut Rng, cfg: &GenCfg) -> Vec<Op> {
                 2 => cs.saturating_sub(1),
                 3 => cs,
                 4 => cs.saturating_add(1),
-                5 => cs.saturating_mul(2),
+                5 => cs.saturating_mul(*rng.pick(&[2usize, 2, 3, 4, 7])),
                 6 => cs.saturating_mul(2).saturating_add(1),
                 7 => cs.saturating_mul(3).saturating_sub(1),
                 8 => rng.usize(0, cap.min(70_000)),
